@@ -88,8 +88,8 @@ structure Inv (s : Net) : Prop where
     (e.origin ≠ x → e.path ≠ []) ∧ (e.path ≠ [] → EntryOK s x e)
 
 theorem inv_init (n mh : Nat) (L : Node → List RAd) : Inv (init n mh L) where
-  sym := by intro a b h; simp [linked, init] at h
-  flight := by intro f hf; simp [init] at hf
+  sym := by intro a b h; simp [linked, init, initH] at h
+  flight := by intro f hf; simp [init, initH] at hf
   entries := by
     intro x e he
     have hl := initNode_entries x (L x) e he
